@@ -1,7 +1,11 @@
 package props
 
 import (
+	"fmt"
 	"math/rand"
+	"sidever/internal/tlc"
+	"strings"
+	"time"
 
 	"sidever/internal/concr"
 	"sidever/internal/ev"
@@ -38,9 +42,78 @@ func C20(c *ev.Ctx) {
 		bs := pipelineBehaviours(c, cfg, n, rng.Int63n(1<<30))
 		runPipelineBehaviours(c, unpub, bs, multiStep, "e2e-trace-rejected")
 	}
+	expiringOperations(c)
 	createViewsAgree(c)
-	c.Cov.Rule = "TLC simulates fault-free behaviours of Pipeline.tla: 2 DIDs, <= 8 client submissions (create/update/recover/deactivate, also after a deactivate), every placement of flushes and observer steps, protocol upgrade at any point (operations are valid only under the version they were accepted by), with and without unpublished store; each behaviour runs on the real pipeline (every other one through the real REST UpdateHandler / ResolveHandler with httptest) and after every step the real replies, queue, stores and ResolveDocument views must equal the specification's (reference state machine over stored + unpublished operations). Plus: create response vs long-form vs short-form views for every key type x version x store option. Non-trivial: >= 2 flushes or >= 2 DIDs."
+	c.Cov.Rule = "TLC simulates fault-free behaviours of Pipeline.tla: 2 DIDs, <= 8 client submissions (create/update/recover/deactivate, also after a deactivate), every placement of flushes and observer steps, protocol upgrade at any point (operations are valid only under the version they were accepted by), with and without unpublished store; each behaviour runs on the real pipeline (every other one through the real REST UpdateHandler / ResolveHandler with httptest) and after every step the real replies, queue, stores and ResolveDocument views must equal the specification's (reference state machine over stored + unpublished operations). Plus: behaviours with updates that expire while queued (kind E, action Clock; design checked exhaustively with NoOrphanUnpublished / QuiescentMeansPublished, traces validated against the as-built variant and against the specification proper). Plus: create response vs long-form vs short-form views for every key type x version x store option. Non-trivial: >= 2 flushes or >= 2 DIDs."
 	c.Finish("model_checking")
+}
+
+// expiringOperations: behaviours with updates whose signed window the server clock passes while they are queued
+// (Pipeline.tla kind E, action Clock).  The recorded traces are validated twice: against the specification with the
+// deviation of the code as built (KeepExpiredUnpublished = TRUE: nobody removes a discarded operation from the
+// unpublished-operation store) - any rejection there is an unknown violation -, and against the specification proper,
+// where a rejection is the named deviation itself.
+func expiringOperations(c *ev.Ctx) {
+	// design level: with the discard modelled, an unpublished operation is always one that is still on its way
+	// (NoOrphanUnpublished, QuiescentMeansPublished) - and the as-built deviation is observable (TLC must find the
+	// counterexample, otherwise the invariant would say nothing)
+	d, err := tlc.Run(tlc.Opts{SpecDir: specDir(), Module: "MC_Pipeline", Config: "MC_Pipeline_mc_expiry.cfg", WorkDir: c.Work, Timeout: 20 * time.Minute})
+	if err != nil || d.InvariantViolated != "" {
+		ev.Fatal("Pipeline.tla with expiring operations: %v %s", err, d.InvariantViolated)
+	}
+	c.Cov.States += d.Distinct
+	c.Cov.Transitions += d.Generated
+	a, err := tlc.Run(tlc.Opts{SpecDir: specDir(), Module: "MC_Pipeline", Config: "MC_Pipeline_mc_expiry_asbuilt.cfg", WorkDir: c.Work, Timeout: 20 * time.Minute})
+	if a == nil || !strings.Contains(a.InvariantViolated+a.Output, "QuiescentMeansPublishedAsBuilt") {
+		ev.Fatal("the as-built deviation (KeepExpiredUnpublished) is not observable in Pipeline.tla: %v", err)
+	}
+	n := 40
+	if c.Tier == "thorough" {
+		n = 600
+	}
+	discards := func(h []pipe.Step) bool {
+		// a Clock step with an expiring update queued before it and a Flush after it
+		queuedE, late := false, false
+		for _, s := range h {
+			switch {
+			case s.A == "Submit" && s.K == "E" && !late:
+				queuedE = true
+			case s.A == "Clock":
+				late = true
+			case s.A == "Flush" && late && queuedE:
+				return true
+			case s.A == "Flush":
+				queuedE = false
+			}
+		}
+		return false
+	}
+	for _, unpub := range []bool{true, false} {
+		gen, ref, asBuilt := "MC_Pipeline_expiry_unpub.cfg", "PipelineTraceExpiry.cfg", "PipelineTraceExpiryAsBuilt.cfg"
+		if !unpub {
+			gen, ref, asBuilt = "MC_Pipeline_expiry_nounpub.cfg", "PipelineTraceExpiryNoUnpub.cfg", "PipelineTraceExpiryAsBuiltNoUnpub.cfg"
+		}
+		var sel [][]pipe.Step
+		for _, h := range pipelineBehaviours(c, gen, n*6, c.Seed+909) {
+			if !discards(h) {
+				continue
+			}
+			if h[len(h)-1].A != "ResolveAll" {
+				h = append(h, pipe.Step{A: "ResolveAll"})
+			}
+			sel = append(sel, h)
+			if len(sel) == n {
+				break
+			}
+		}
+		if len(sel) == 0 {
+			ev.Fatal("no behaviour with a discarded expiring operation generated")
+		}
+		before := c.Cov.DistinctNontrivial
+		runPipelineBehavioursCfg(c, unpub, sel, discards, "expiry-trace-rejected", []string{asBuilt, ref},
+			[]string{"", "expired-operation-discarded-at-cut-stays-in-the-unpublished-store"})
+		c.Cov.Extra[fmt.Sprintf("behaviours_with_an_operation_expiring_in_the_queue_unpub_%v", unpub)] = c.Cov.DistinctNontrivial - before
+	}
 }
 
 func createViewsAgree(c *ev.Ctx) {
